@@ -90,6 +90,9 @@ def _run(ctx, n, nops, rep, concurrent=None):
     cli_hist.scan_fault_probe(ctx, rep, CLI_MINE + ('referenced_chunk_missing', 'gc_incomplete'))
     # and over the remote adapters (B2 by bucket name and by bucket id, S3-compatible) against in-memory fake services
     remote_hist.remote_probe(ctx, rep, ('exception', 'repeat_uploaded_payload', 'not_exact'))
+    # ... exactness also when the service refuses one call of a delete for good (401/403/400/5xx): a delete that reports success has
+    # removed the snapshot object and every chunk only it referenced
+    remote_hist.remote_fault_probe(ctx, rep, ('gc_incomplete', 'referenced_chunk_missing'), n=ctx.scale(14, 80), focus='delete')
 
 
 def run(ctx) -> Report:
@@ -119,6 +122,7 @@ def replay(ctx, obj):
     if (obj.get('replay') or {}).get('probe') == 'remote':
         rep = Report(rule=RULE)
         remote_hist.remote_probe(ctx, rep, ('exception', 'repeat_uploaded_payload', 'not_exact'), deployments=[obj['replay']['deployment']])
+        remote_hist.remote_fault_probe(ctx, rep, ('gc_incomplete', 'referenced_chunk_missing'), n=80, focus='delete')
         for v in rep.violations:
             print('VIOLATION-REPRODUCED', v['what'])
         return 1 if rep.violations else 0
